@@ -51,6 +51,10 @@ class BodyGen:
         self.reserved = set()      # regs reserved as loop counters (not assignable by random statements)
         self.budget = max_stmts * 3
         self.cstack = ['stmt']
+        self.opportunities = 0     # typed expression slots seen (for single-point type mutations)
+        self.inject_at = None      # if set: the k-th slot gets an expression of the wrong type
+        self.injected = None       # description of the injected fault
+        self.no_inject = 0
         self.tmax = 0              # upper bound of the script time at the current point (labels are kept monotone)
         # the register used for register-valued loop counts is never written by the body (it must stay small and >= 0)
         if env.extra_int and ('times' in env.feats):
@@ -137,8 +141,28 @@ class BodyGen:
         if self.rng.chance(0.45): return self.lit(ty)
         return self.read_var(ty)
 
+    def wrong(self, ty):
+        """An expression that is NOT of type ty (no cast): makes the surrounding construct ill-typed."""
+        r = self.rng
+        other = FLOAT if ty == INT else INT
+        k = r.wpick([('lit', 3), ('var', 3), ('str', 1), ('expr', 1)])
+        if k == 'var':
+            cands = self.vars_of(other)
+            if cands:
+                text, reg = r.pick(cands); self.mention(reg)
+                return self.var_text(text, reg), 'var-of-' + other
+        if k == 'str': return '"text"', 'string'
+        if k == 'expr': return '(%s + %s)' % (self.lit(other), self.lit(other)), 'expr-of-' + other
+        return self.lit(other), 'literal-' + other
+
     def expr(self, ty, depth=None):
         r = self.rng
+        if not self.no_inject:
+            self.opportunities += 1
+            if self.inject_at is not None and self.opportunities == self.inject_at:
+                text, what = self.wrong(ty)
+                self.injected = {'wanted': ty, 'got': what, 'context': list(self.cstack[-2:]), 'block_depth': len(self.scopes) - 1}
+                return text
         if depth is None: depth = r.randint(0, self.expr_depth)
         if depth <= 0 or r.chance(0.15): return self.atom(ty)
         opts = []
@@ -189,7 +213,9 @@ class BodyGen:
             return P(':'.join(cases))
         if k == 'cast':
             other = FLOAT if ty == INT else INT
+            self.no_inject += 1
             inner = self.expr(other, d)
+            self.no_inject -= 1
             fn = r.pick(['_S', 'int', '$'] if ty == INT else ['_f', 'float', '%'])
             return '%s(%s)' % (fn, inner)
         if k == 'cmp':
